@@ -4,9 +4,52 @@
    [registry] is GENERATED from the dclab tree under test
    (harness/translators/anc_trace.py -> Gen/AncRegistry.v). *)
 From Coq Require Import ZArith List Bool.
-From Verif Require Import Model.C06 Gen.AncRegistry Proofs.C06_registry.
+From Verif Require Import Model.C06 Proofs.C06 Gen.AncRegistry Proofs.C06_registry.
 Import ListNotations.
 Open Scope Z_scope.
+
+(* Cache invariant, for EVERY registry and every history of SetCfg / DelCfg /
+   SetTemp / Read / Contains / Features from a freshly opened dataset: each
+   cache slot was filled by a recipe of the registry, has the shape of that
+   recipe's hash and (generic methods) holds that recipe's method applied to
+   the hashed ingredients. *)
+Theorem C06_cache_invariant :
+  forall reg b ops, Inv reg (run_state reg (fresh b) ops).
+Proof. exact (fun reg b ops => run_inv reg ops (fresh b) (fresh_inv reg b)). Qed.
+Print Assumptions C06_cache_invariant.
+
+(* Cache coherence, for EVERY registry whose colliding instances are
+   interchangeable and every history: a read returns exactly what a dataset
+   with the same data/configuration and an empty cache returns, provided the
+   cache did not change which recipe is selected (guard 1; excludes finding
+   C06-cached-stays-listed) and the selected recipe has stored required
+   features, reads only hashed ingredients and is a generic method (guard 2;
+   excludes the staleness findings). md5 is modelled as injective. *)
+Theorem C06_read_coherent_flat_partial :
+  forall reg b ops f,
+    collide_ok reg = true ->
+    let st := run_state reg (fresh b) ops in
+    select AF reg st f = select AF reg (clear st) f ->
+    (forall r, select AF reg st f = Some r ->
+       forallb (in_base (s_base st)) (r_feats r) = true
+       /\ uses_covered r = true /\ r_mkind r = 0
+       /\ (r_rf r =? 2) = false /\ r_extra r = []) ->
+    snd (read RF reg st f) = snd (read RF reg (clear st) f).
+Proof. exact history_read_coherent. Qed.
+Print Assumptions C06_read_coherent_flat_partial.
+
+(* ... instantiated with the generated table: for every recipe outside the
+   known findings the guards reduce to "stored required features". *)
+Theorem C06_read_coherent_registry_partial :
+  forall b ops f,
+    let st := run_state registry (fresh b) ops in
+    select AF registry st f = select AF registry (clear st) f ->
+    (forall r, select AF registry st f = Some r ->
+       forallb (in_base (s_base st)) (r_feats r) = true
+       /\ known_incomplete r = false /\ r_mkind r = 0) ->
+    snd (read RF registry st f) = snd (read RF registry (clear st) f).
+Proof. exact registry_read_coherent. Qed.
+Print Assumptions C06_read_coherent_registry_partial.
 
 (* Registry completeness (bound: the generated table; ingredients observed in
    the traced environments): every recipe not named by a known finding reads
